@@ -261,6 +261,19 @@ where
     ) -> Result<WriteEvent, Self::Error> {
         let _summary = self.summary().await?;
 
+        // Replace the row when the identifier already exists
+        // so identifiers are unique in the file
+        if self
+            .update_secret(&id, commit, secret.clone())
+            .await?
+            .is_some()
+        {
+            return Ok(WriteEvent::CreateSecret(
+                id,
+                VaultCommit(commit, secret),
+            ));
+        }
+
         // Encode the row into a buffer
         let mut buffer = Vec::new();
         let mut writer =
